@@ -31,10 +31,12 @@ type world struct {
 	canon map[string]string // plugin source -> canonical
 	venv  map[string]string // verification env
 	penv  map[string]string // what was signed as pipeline env
-	repo  string
-	sig   *pipeline.Signature
-	kp    keys.Pair
-	vkey  any
+	// signedStepEnv: the step's own env at signing time (what shadows pipeline variables)
+	signedStepEnv map[string]string
+	repo          string
+	sig           *pipeline.Signature
+	kp            keys.Pair
+	vkey          any
 }
 
 func (w *world) verify(ctx context.Context) error {
@@ -101,6 +103,19 @@ func pluginSem(p *pipeline.Plugin) string {
 
 func matrixEmpty(m *pipeline.Matrix) bool {
 	return m == nil || (len(m.Setup) == 0 && len(m.Adjustments) == 0 && len(m.RemainingFields) == 0)
+}
+
+// expectSigned: the pipeline variables that MUST be signed for this step - every one the step's own
+// env does not shadow - computed from the inputs, never read off the signature under test.
+func expectSigned(w *world) []string {
+	var out []string
+	for n := range w.penv {
+		if _, shadowed := w.signedStepEnv[n]; !shadowed {
+			out = append(out, n)
+		}
+	}
+	sort.Strings(out)
+	return out
 }
 
 func signedEnvFields(sig *pipeline.Signature) []string {
@@ -511,7 +526,7 @@ var catalogue = []mutation{
 	}},
 	// ---- verification env
 	{"venv-signed-value-change", true, func(t *rapid.T, w *world, _ *auxData) bool {
-		se := signedEnvFields(w.sig)
+		se := expectSigned(w)
 		if len(se) == 0 {
 			return false
 		}
@@ -522,7 +537,7 @@ var catalogue = []mutation{
 		// the signed variable is gone; a variable whose name differs from it only in letter case holds
 		// the signed value (names are case-sensitive: that is a different variable)
 		var cased []string
-		for _, n := range signedEnvFields(w.sig) {
+		for _, n := range expectSigned(w) {
 			if strings.ToUpper(n) != n || strings.ToLower(n) != n {
 				cased = append(cased, n)
 			}
@@ -548,7 +563,7 @@ var catalogue = []mutation{
 		return true
 	}},
 	{"venv-signed-var-removed", true, func(t *rapid.T, w *world, _ *auxData) bool {
-		se := signedEnvFields(w.sig)
+		se := expectSigned(w)
 		if len(se) == 0 {
 			return false
 		}
@@ -861,15 +876,41 @@ func TestPropMutationsBreakVerification(t *testing.T) {
 		}
 		kp := rapid.SampledFrom(ofKind).Draw(t, "key")
 		sf := &signature.CommandStepWithInvariants{CommandStep: *step, RepositoryURL: repo}
-		sig, err := signature.Sign(ctx, kp.Priv, sf, signature.WithEnv(penv))
-		if err != nil {
-			t.Fatalf("Sign failed: %v", err)
+		var sig *pipeline.Signature
+		var err error
+		if rapid.IntRange(0, 3).Draw(t, "viasignsteps") == 0 {
+			// the signature as a pipeline upload makes it: SignSteps over a list in which this step comes
+			// after another one (top level, or inside a group) whose own env shadows some pipeline variables
+			earlier, _ := g.Step()
+			if earlier.Env == nil {
+				earlier.Env = map[string]string{}
+			}
+			for _, n := range sortedKeys(penv) {
+				if rapid.Bool().Draw(t, "earliershadows") {
+					earlier.Env[n] = "shadowed by the earlier step"
+				}
+			}
+			mine := sgen.CopyStep(step)
+			list := pipeline.Steps{earlier, mine}
+			if rapid.Bool().Draw(t, "ingroup") {
+				name := "g"
+				list = pipeline.Steps{&pipeline.GroupStep{Group: &name, Steps: pipeline.Steps{earlier}}, &pipeline.GroupStep{Group: &name, Steps: pipeline.Steps{mine}}}
+			}
+			if err = signature.SignSteps(ctx, list, kp.Priv, repo, signature.WithEnv(penv)); err == nil {
+				sig = mine.Signature
+			}
+			rec.Class("signed-through-SignSteps-after-a-step-that-shadows-pipeline-variables")
+		} else {
+			sig, err = signature.Sign(ctx, kp.Priv, sf, signature.WithEnv(penv))
+		}
+		if err != nil || sig == nil {
+			t.Fatalf("signing failed: %v", err)
 		}
 		venv := sgen.CopyStrMap(penv)
 		for i, n := 0, rapid.IntRange(0, 2).Draw(t, "nunrelated"); i < n; i++ {
 			venv[fmt.Sprintf("UNRELATED_%d", i)] = "u"
 		}
-		w := &world{step: sgen.CopyStep(step), canon: canonMap, venv: venv, penv: penv, repo: repo,
+		w := &world{step: sgen.CopyStep(step), canon: canonMap, venv: venv, penv: penv, repo: repo, signedStepEnv: sgen.CopyStrMap(step.Env),
 			sig: &pipeline.Signature{Algorithm: sig.Algorithm, SignedFields: append([]string{}, sig.SignedFields...), Value: sig.Value}, kp: kp, vkey: kp.Pub}
 		// positive control
 		if err := w.verify(ctx); err != nil {
@@ -891,7 +932,7 @@ func TestPropMutationsBreakVerification(t *testing.T) {
 				break
 			}
 			// a mutation that reported "not applicable" must not have changed anything; rebuild to be safe
-			w = &world{step: sgen.CopyStep(step), canon: canonMap, venv: sgen.CopyStrMap(venv), penv: penv, repo: repo,
+			w = &world{step: sgen.CopyStep(step), canon: canonMap, venv: sgen.CopyStrMap(venv), penv: penv, repo: repo, signedStepEnv: sgen.CopyStrMap(step.Env),
 				sig: &pipeline.Signature{Algorithm: sig.Algorithm, SignedFields: append([]string{}, sig.SignedFields...), Value: sig.Value}, kp: kp, vkey: kp.Pub}
 		}
 		if m == nil {
